@@ -325,6 +325,15 @@ class Normalizer:
         mapping[ret] = ret
         if selfname and bind_self is True:
             mapping.pop(selfname, None)     # receiver is the caller's own `self`
+        # a parameter bound to a plain local name that the helper never rebinds *is* that local (mutations through it
+        # are mutations of the caller's object): use the caller's name instead of an alias
+        rebound = _stored_names(ast.Module(body=body, type_ignores=[]))
+        direct = {}
+        for pname, val in binds:
+            if isinstance(val, ast.Name) and pname not in rebound and pname in mapping and not (selfname and pname == selfname and bind_self is True):
+                direct[pname] = val.id
+                mapping[pname] = val.id
+        binds = [(pn, v) for pn, v in binds if pn not in direct]
         ren = _Renamer(mapping)
         body = [ren.visit(s) for s in body]
         marker = ast.Expr(value=ast.Call(func=ast.Name(id=MARKER, ctx=ast.Load()),
